@@ -37,6 +37,10 @@ type c42Case struct {
 	Chunks []int      `json:"chunks"` // sizes of the client's Write calls
 	Ops    []tamperOp `json:"ops"`
 	Multi  bool       `json:"multi,omitempty"`
+	// HsOps tamper with the bodies of the client's handshake-phase records
+	// (ClientHello .. Finished), addressed by record index; no application data
+	// is sent in such a case.
+	HsOps []tamperOp `json:"hs_ops,omitempty"`
 }
 
 type c42Combo struct {
@@ -96,6 +100,7 @@ type c42Run struct {
 	CliErr      error
 	SrvHsErr    error
 	Records     [][]byte // post-handshake client records as produced by the client
+	HsRecords   [][]byte // the client's handshake-phase records (ClientHello .. Finished)
 	Delivered   []byte   // the stream given to the server after the handshake
 	Got         []byte   // application bytes the server's Read returned
 	ReadErr     error    // the error that ended the server's Read loop
@@ -118,7 +123,7 @@ func c42Client(cb c42Combo, conn *bufConn) appClient {
 // c42Exchange runs one connection through the man-in-the-middle. transform
 // receives the post-handshake client records and returns the byte stream to
 // deliver instead.
-func c42Exchange(cb c42Combo, plain [][]byte, transform func(recs [][]byte) []byte) *c42Run {
+func c42Exchange(cb c42Combo, plain [][]byte, hsOps []tamperOp, transform func(recs [][]byte) []byte) *c42Run {
 	out := &c42Run{}
 	cEnd, mA := newBufPipe() // client <-> mitm
 	mB, sEnd := newBufPipe() // mitm <-> server
@@ -134,13 +139,14 @@ func c42Exchange(cb c42Combo, plain [][]byte, transform func(recs [][]byte) []by
 		mA.CloseWrite()
 	}()
 	// client -> server: handshake verbatim, then collect, tamper, deliver
-	var recs [][]byte
+	var recs, hsRecs [][]byte
 	var delivered []byte
 	go func() {
 		defer wg.Done()
 		defer mB.CloseWrite()
 		sawCCS, collecting := false, false
-		for {
+		var held []byte // record held back by an hs-swap
+		for idx := 0; ; idx++ {
 			rc, err := readRawRecord(mA)
 			if err != nil {
 				break
@@ -149,13 +155,46 @@ func c42Exchange(cb c42Combo, plain [][]byte, transform func(recs [][]byte) []by
 				recs = append(recs, rc.Raw)
 				continue
 			}
-			if _, err := mB.Write(rc.Raw); err != nil {
-				return
+			hsRecs = append(hsRecs, rc.Raw)
+			out := [][]byte{rc.Raw}
+			if held != nil {
+				out = [][]byte{rc.Raw, held}
+				held = nil
+			}
+			for _, op := range hsOps {
+				if op.Pos != idx {
+					continue
+				}
+				switch op.Kind {
+				case "hs-flip":
+					body := len(rc.Raw) - 5
+					out[0] = flipBit(rc.Raw, 5+(op.Arg/8)%body, op.Arg%8)
+				case "hs-drop":
+					out = out[1:]
+				case "hs-dup":
+					out = append(out, rc.Raw)
+				case "hs-swap":
+					held = rc.Raw
+					out = out[1:]
+				}
+			}
+			for _, o := range out {
+				if _, err := mB.Write(o); err != nil {
+					return
+				}
 			}
 			if rc.Typ == recCCS {
 				sawCCS = true
 			} else if sawCCS && rc.Typ == recHandshake {
 				collecting = true // that was the client's Finished
+				if len(hsOps) > 0 {
+					// nothing more is needed from the client to finish the handshake: half-close so
+					// that a server left waiting by a dropped record sees EOF instead of blocking
+					if held != nil {
+						mB.Write(held)
+					}
+					return
+				}
 			}
 		}
 		if !collecting {
@@ -200,6 +239,7 @@ func c42Exchange(cb c42Combo, plain [][]byte, transform func(recs [][]byte) []by
 	out.CliErr, out.SrvHsErr, out.ReadErr = cliErr, srvHsErr, readErr
 	out.HandshakeOK = cliErr == nil && srvHsErr == nil
 	out.Records, out.Delivered, out.Got = recs, delivered, got
+	out.HsRecords = hsRecs
 	return out
 }
 
@@ -418,7 +458,7 @@ func c42Check(r *vkit.Run, c *c42Case, donors *c42Donors, g *vkit.Rand) {
 	r.WriteAhead(c)
 	var run *c42Run
 	if r.Try(func() interface{} { return c }, func() {
-		run = c42Exchange(cb, parts, func(recs [][]byte) []byte { return applyOps(recs, donor, c.Ops) })
+		run = c42Exchange(cb, parts, nil, func(recs [][]byte) []byte { return applyOps(recs, donor, c.Ops) })
 	}) {
 		return
 	}
@@ -482,8 +522,45 @@ func c42Check(r *vkit.Run, c *c42Case, donors *c42Donors, g *vkit.Rand) {
 	}
 }
 
+// c42HsCheck: tampering with the body of a handshake-phase record must make
+// the server's handshake fail; the server application must see no data.
+func c42HsCheck(r *vkit.Run, c *c42Case) {
+	cb := c42Combo{c.Client, c.Cert, c.Vers, c.Suite}
+	r.WriteAhead(c)
+	var run *c42Run
+	if r.Try(func() interface{} { return c }, func() {
+		run = c42Exchange(cb, [][]byte{[]byte("must never arrive")}, c.HsOps, func(recs [][]byte) []byte { return bytes.Join(recs, nil) })
+	}) {
+		return
+	}
+	if hangCheck(r, run.Hung, c) {
+		return
+	}
+	key := fmt.Sprintf("hs|%v|%v", cb, c.HsOps)
+	if c.HsOps[0].Pos >= len(run.HsRecords) {
+		r.CaseS(key, false)
+		return
+	}
+	r.CaseS(key, true)
+	r.Count("handshake_tamper_cases", 1)
+	wit := map[string]interface{}{"case": c, "combo": cb.String(), "client_handshake_records": len(run.HsRecords),
+		"server_handshake_err": errStr(run.SrvHsErr), "client_err": errStr(run.CliErr), "server_got_bytes": len(run.Got), "server_read_error": errStr(run.ReadErr)}
+	switch {
+	case run.SrvHsErr != nil:
+		r.Count("handshake_tamper_detected", 1)
+	case len(run.Got) > 0:
+		r.Violation("handshake-tamper:"+c.HsOps[0].Kind+":application-data-accepted", "server completed a tampered handshake and delivered application data", wit)
+	case run.ReadErr != nil && run.ReadErr != io.EOF:
+		// e.g. a duplicated Finished arrives after the handshake is over and is refused by the record layer
+		r.Count("handshake_tamper_detected", 1)
+		r.Count("handshake_tamper_detected_at_first_read", 1)
+	default:
+		r.Violation("handshake-tamper:"+c.HsOps[0].Kind+":undetected", fmt.Sprintf("server completed the handshake although a handshake record was tampered with, and its Read ended with %v", run.ReadErr), wit)
+	}
+}
+
 func c42(r *vkit.Run) {
-	r.SetRule("every (client, certificate, version TLS1.0-1.2, suite) combination bfe_tls enables (37 with Go's crypto/tls client, RSA-SM4-SM3 x3 with bfe's own client as traffic generator; SSLv3 excluded: no standard client) x 28 tamper kinds (bit flips in type/version/length/first/middle/last body byte, cuts inside body/header/at boundary, duplicate, later replay, swap, drop, length edits, cross-connection insert/replace, forged and empty record) x 3 positions (first, middle, last post-handshake record incl. close_notify), plus one untampered control per combination; thorough adds seeded sequences of 2-3 ops and single-bit flips at random offsets. Oracle: server bytes are a prefix of the client's plaintext and the Read loop ends with a non-nil error other than io.EOF. Ops whose effect lies wholly after the close_notify record are not counted. Non-trivial = delivered stream differs from the original; distinct = (combination, chunking, op list)")
+	r.SetRule("every (client, certificate, version TLS1.0-1.2, suite) combination bfe_tls enables (37 with Go's crypto/tls client, RSA-SM4-SM3 x3 with bfe's own client as traffic generator; SSLv3 excluded: no standard client) x 28 tamper kinds (bit flips in type/version/length/first/middle/last body byte, cuts inside body/header/at boundary, duplicate, later replay, swap, drop, length edits, cross-connection insert/replace, forged and empty record) x 3 positions (first, middle, last post-handshake record incl. close_notify), plus one untampered control per combination, plus handshake-phase tampering (bit flip in the body of each of the client's ClientHello/ClientKeyExchange/ChangeCipherSpec/Finished records, drop, duplicate, swap: the server handshake must fail); thorough adds seeded sequences of 2-3 ops and single-bit flips at random offsets. Oracle: server bytes are a prefix of the client's plaintext and the Read loop ends with a non-nil error other than io.EOF. Ops whose effect lies wholly after the close_notify record are not counted. Non-trivial = delivered stream differs from the original; distinct = (combination, chunking, op list)")
 	getPKI()
 	donors := &c42Donors{m: map[c42Combo][][]byte{}}
 	if r.Replay != "" {
@@ -495,10 +572,14 @@ func c42(r *vkit.Run) {
 			return
 		}
 		r.SetMinDistinct(0)
+		if len(w.Case.HsOps) > 0 {
+			c42HsCheck(r, &w.Case)
+			return
+		}
 		cb := c42Combo{w.Case.Client, w.Case.Cert, w.Case.Vers, w.Case.Suite}
 		g := r.Rng("replay")
 		parts, _ := c42Plain(g, c42ChunkSets[0])
-		d := c42Exchange(cb, parts, func(recs [][]byte) []byte { return bytes.Join(recs, nil) })
+		d := c42Exchange(cb, parts, nil, func(recs [][]byte) []byte { return bytes.Join(recs, nil) })
 		donors.m[cb] = d.Records
 		c42Check(r, &w.Case, donors, g)
 		return
@@ -506,10 +587,10 @@ func c42(r *vkit.Run) {
 	combos := c42Combos()
 	// donors (also the availability test of each combination)
 	avail := make([]bool, len(combos))
-	vkit.Parallel(len(combos), 0, func(i int) {
+	vkit.Parallel(len(combos), workers, func(i int) {
 		g := r.Rng("donor", i)
 		parts, _ := c42Plain(g, c42ChunkSets[i%len(c42ChunkSets)])
-		d := c42Exchange(combos[i], parts, func(recs [][]byte) []byte { return bytes.Join(recs, nil) })
+		d := c42Exchange(combos[i], parts, nil, func(recs [][]byte) []byte { return bytes.Join(recs, nil) })
 		if d.HandshakeOK && len(d.Records) > 0 {
 			avail[i] = true
 			donors.mu.Lock()
@@ -563,7 +644,7 @@ func c42(r *vkit.Run) {
 			}
 		}
 	}
-	vkit.Parallel(len(cases), 0, func(i int) {
+	vkit.Parallel(len(cases), workers, func(i int) {
 		cb := c42Combo{cases[i].Client, cases[i].Cert, cases[i].Vers, cases[i].Suite}
 		ci := 0
 		for k := range combos {
@@ -573,9 +654,43 @@ func c42(r *vkit.Run) {
 		}
 		c42Check(r, &cases[i], donors, r.Rng("donor", ci)) // same plaintext as the donor run
 	})
+	// handshake-phase tampering: bodies of ClientHello, ClientKeyExchange, ChangeCipherSpec, Finished
+	var hsCases []c42Case
+	for i, cb := range combos {
+		if !avail[i] {
+			continue
+		}
+		g := r.Rng("hs", i)
+		base := c42Case{Client: cb.Client, Cert: cb.Cert, Vers: cb.Vers, Suite: cb.Suite}
+		for pos := 0; pos < 4; pos++ {
+			c := base
+			c.HsOps = []tamperOp{{Kind: "hs-flip", Pos: pos, Arg: g.Intn(1 << 16)}}
+			hsCases = append(hsCases, c)
+			if !r.Quick() {
+				for k := 0; k < 12; k++ {
+					c.HsOps = []tamperOp{{Kind: "hs-flip", Pos: pos, Arg: g.Intn(1 << 16)}}
+					hsCases = append(hsCases, c)
+				}
+			}
+		}
+		for _, k := range []string{"hs-drop", "hs-dup", "hs-swap"} {
+			for pos := 1; pos < 4; pos++ {
+				if k == "hs-swap" && pos == 3 {
+					continue
+				}
+				c := base
+				c.HsOps = []tamperOp{{Kind: k, Pos: pos}}
+				hsCases = append(hsCases, c)
+			}
+		}
+	}
+	vkit.Parallel(len(hsCases), workers, func(i int) { c42HsCheck(r, &hsCases[i]) })
+	if r.Counter("handshake_tamper_detected") == 0 {
+		r.Inconclusive("no handshake-phase tampering was detected")
+	}
 	// thorough: multi-op sequences and random single-bit flips
-	if nm := r.N(400, 40000); nm > 0 {
-		vkit.Parallel(nm, 0, func(i int) {
+	if nm := r.N(400, 60000); nm > 0 {
+		vkit.Parallel(nm, workers, func(i int) {
 			g := r.Rng("multi", i)
 			ci := g.Intn(len(combos))
 			if !avail[ci] {
